@@ -19,7 +19,8 @@ MANIFEST = {
 THEOREMS = ['C09.sasl_required_safe', 'C09.auth_only_in_exchange', 'C09.cap_end_needs_auth', 'C09.sts_parse', 'C09.stsInt_none',
             'C09.sts_store_only_secure', 'C09.sts_store_only_secure_stub', 'C09.sts_insecure_upgrade',
             'C09.upgrade_reconnect', 'C09.flush_not_connected', 'C09.upgrade_next_server', 'C09.forced_tls_verified',
-            'C09.sts_applied', 'C09.sts_not_expired_without_disconnect', 'C09.sts_expired_dropped']
+            'C09.sts_applied', 'C09.sts_not_expired_without_disconnect', 'C09.sts_expired_dropped',
+            'C09.sts_stored_policy_applied', 'C09.connectTo_host']
 TRUSTED = c08.TRUSTED + ['fake socket / patched utils.net.getSocket, getAddressFromHostname, ssl_wrap_socket (TLS itself is outside: the claim is which verify flag and which port are used)']
 ASSUMPTIONS = c08.ASSUMPTIONS + ['STS policy integers are ASCII, fewer than 4300 digits', 'one driver per network; connect() to the fake socket always succeeds']
 RULE = ('(required) the C08 adversarial / conformant / mixed script generators with sasl.required forced on, servers that omit sasl, NAK it, '
